@@ -571,6 +571,10 @@ theorem lcovered_clean (c : Cmd) (hc : LCovered c) : Clean c.bytes := by
       | (rcases hx with rfl | hx
          · omega
          · exact hnum _ hx)
+      | (rcases hx with (rfl | rfl) | hx
+         · omega
+         · omega
+         · exact hnum _ hx)
   · apply clean_of_range
     intro x hx
     simp only [Cmd.bytes, List.mem_cons] at hx
